@@ -92,11 +92,28 @@ def defect_sets(style, skip, quick):
     return ds, sets, nconf
 
 
+# setter orders of cli_api (MSSM C++ / C entries); the prediction of the decision table does not depend on them
+ORDERS = [("sm-last", 1), ("tb-last", 2), ("reversed", 3), ("revisit", 4), ("repair", 5)]
+
+
+# repaired object vs fresh object: calculate_masses() recomputes everything from the inputs (rounding only).
+# In the SLHA scheme no equality is claimed: pole masses that were not given are filled in from the first
+# spectrum ("a vanishing pole mass means: use the tree-level mass") and stay in the object, so a re-used
+# object legitimately differs from a fresh one (observed 1-7 % in a_mu); there the repaired object only has
+# to be accepted and to give a finite result.
+REPAIR_TOL = {"gm2": 1e-10, "slha": None}
+
+
+def api_line(c):
+    return "%s %d %s%s" % (c["hent"], c["force"], c["argstr"], c["extra"])
+
+
 def build_cases(quick, skip_by_base):
     cases, info = [], {}
     for style in ("slha", "gm2", "mass", "gauge"):
         model, typ, ren, args, cpp, cc, pts = STYLE[style]
         for bname, base in pts():
+            bargs = " ".join("b." + t for t in args(base).split())
             ds, sets, nconf = defect_sets(style, skip_by_base.get((style, bname), ()), quick)
             info[style] = dict(defects=len(ds), sets=len(sets), conflicting_pairs_skipped=nconf)
             for dset in sets:
@@ -104,24 +121,36 @@ def build_cases(quick, skip_by_base):
                 p = T.apply(base, dset, HELP)
                 cli_only = any(d.special == "cli-only" for d in dset)
                 body = ren(p)        # one string object shared by all program variants of this point
+                argstr = None if cli_only else args(p)
                 for force in (0, 1):
                     com = dict(model=model, style=style, base=bname, ids=ids, force=force)
                     for (fmt, loop, resum) in cli_variants(quick):
                         cases.append(dict(com, entry="cli", fmt=fmt, loop=loop, resum=resum, typ=typ, body=body))
                     if cli_only:
                         continue
-                    cases.append(dict(com, entry="cpp", line="%s %d %s" % (cpp, force, args(p))))
+                    # API lines are assembled in execute(): "<harness entry> <force> <argstr><extra>"
+                    api = dict(com, argstr=argstr)
+                    cases.append(dict(api, entry="cpp", hent=cpp, extra=""))
                     if model == "THDM" or force == 0:        # the MSSM C interface cannot set force-output
-                        cases.append(dict(com, entry="c", line="%s %d %s" % (cc, force, args(p))))
+                        cases.append(dict(api, entry="c", hent=cc, extra=""))
                     if model == "MSSM":
                         # the same through the functions without tan(beta) resummation
-                        cases.append(dict(com, entry="cpp-nonres", line="%s %d %s nonres=1" % (cpp, force, args(p))))
+                        cases.append(dict(api, entry="cpp-nonres", hent=cpp, extra=" nonres=1"))
                         if force == 0:
-                            cases.append(dict(com, entry="c-nonres", line="%s %d %s nonres=1" % (cc, force, args(p))))
+                            cases.append(dict(api, entry="c-nonres", hent=cc, extra=" nonres=1"))
+                        # the order of the setter calls is part of the API alphabet (singles; pairs: thorough)
+                        if len(dset) <= 1 or not quick:
+                            for oname, onum in ORDERS:
+                                if onum >= 4 and not dset:
+                                    continue
+                                ex = " order=%d" % onum + (" " + bargs if onum >= 4 else "")
+                                cases.append(dict(api, entry="cpp@" + oname, hent=cpp, extra=ex))
+                                if force == 0:
+                                    cases.append(dict(api, entry="c@" + oname, hent=cc, extra=ex))
                     if model == "THDM" and any(d.id.startswith("yukawa=") for d in dset):
                         # the same invalid integer stored directly in the basis struct (e.g. a zeroed C struct)
-                        cases.append(dict(com, entry="cpp-rawenum", line="%s %d %s yukawa_cast=1" % (cpp, force, args(p))))
-                        cases.append(dict(com, entry="c-rawenum", line="%s %d %s yukawa_cast=1" % (cc, force, args(p))))
+                        cases.append(dict(api, entry="cpp-rawenum", hent=cpp, extra=" yukawa_cast=1"))
+                        cases.append(dict(api, entry="c-rawenum", hent=cc, extra=" yukawa_cast=1"))
     return cases, info
 
 
@@ -159,7 +188,7 @@ def execute(cases):
     try:
         cl = [(n, c["typ"], c["body"], (c["fmt"], c["loop"], c["resum"], c["force"], 0, 0, 1))
               for n, c in enumerate(cases) if c["entry"] == "cli"]
-        ap = [(n, c["line"]) for n, c in enumerate(cases) if c["entry"] != "cli"]
+        ap = [(n, api_line(c)) for n, c in enumerate(cases) if c["entry"] != "cli"]
         with mp.Pool(min(16, os.cpu_count() or 4)) as pool:
             r1 = pool.map(_cli_chunk, [(cli, root, cl[i:i + 200]) for i in range(0, len(cl), 200)])
             r2 = pool.map(_api_chunk, [(exe, ap[i:i + 200]) for i in range(0, len(ap), 200)])
@@ -183,7 +212,7 @@ RESULT_LOC = {2: ("LOWEN", "6"), 3: ("SPHENOLOWENERGY", "21"), 4: ("GM2CALCOUTPU
 
 def observe_cli(c, rc, out, err):
     fmt = c["fmt"]
-    o = dict(kind="cli", rc=rc, stdout=out[-600:] if fmt < 2 else "", stderr=err[-600:], result=None, shape_ok=True)
+    o = dict(kind="cli", rc=rc, stdout=out[-200:] if fmt < 2 else "", result=None, shape_ok=True)
     diag = err
     if fmt == 0:
         ls = [x.strip() for x in out.split("\n") if x.strip()]
@@ -254,6 +283,7 @@ def observe_api(c, r_):
     o["msg"] = (what + " | " + err + " | " + probs)[-300:]
     o["text"] = what + " | " + err + " | " + probs
     o["mcha0"] = r_.get("mcha0")
+    o["pre_setup"] = r_.get("pre_setup")
     return o
 
 
@@ -279,11 +309,17 @@ def judge(c, o):
     else:
         nonres = c["entry"].endswith("-nonres")
     dset = [d for d in dset if "res" in d.paths or (nonres and "nonres" in d.paths)]
-    is_c = c["entry"] in ("c", "c-nonres", "c-rawenum")
+    order = c["entry"].partition("@")[2]
+    if order == "repair":
+        dset = []      # the defective object was repaired with the valid values: judged as the valid point
+    is_c = c["entry"].partition("@")[0] in ("c", "c-nonres", "c-rawenum")
     pred = T.predict(model, dset, force)
     if (is_c and model == "MSSM" and pred["refused"] and not o.get("crash") and not o["refused"]
-            and o["result"] is not None and math.isnan(o["result"])):
-        # a double-returning C function has no error channel: NaN is its refusal (gm2_1loop.h / gm2_2loop.h)
+            and o["result"] is not None and math.isnan(o["result"])
+            and all("res" not in d.paths for d in dset)):
+        # a defect that shows only in the spectrum built inside a calculation function: a double-returning
+        # C function has no error channel, NaN is its refusal (gm2_1loop.h / gm2_2loop.h).  Everything
+        # else must be refused by the conversion / spectrum function through its error code.
         o = dict(o, refused=True, result=None, code=None, nan_refusal=True)
     tag = "+".join(ids) or "valid"
     ent = c["entry"] + (":fmt%d" % c["fmt"] if c["entry"] == "cli" else "")
@@ -303,6 +339,8 @@ def judge(c, o):
         return F
     if not o["shape_ok"]:
         fail("output-shape", "unexpected output shape: %r" % (o.get("stdout", ""),))
+    if order == "revisit" and o.get("pre_setup") != "OK":
+        fail("revisit-valid-refused", "the valid point set up first on the same object was refused (%s)" % o.get("pre_setup"))
     cli = o["kind"] == "cli"
     if cli and o["rc"] not in (0, 1):
         fail("exit-status", "exit status %r" % (o["rc"],))
@@ -463,6 +501,24 @@ def run(ctx):
                     break
         return "%s:%s:%s:%s" % (c["model"], "+".join(ids) or "valid", verdict, c["entry"])
 
+    # a defective object repaired with the valid values must give the result of a freshly built valid object
+    fresh = {}
+    for c, o in zip(cases, obs):
+        if not c["ids"] and c["entry"] in ("cpp", "c"):
+            fresh[(c["style"], c["base"], c["force"], c["entry"])] = o.get("result")
+    nrep = 0
+    for c, o, vs in zip(cases, obs, verdicts):
+        if c["entry"].endswith("@repair") and not o.get("crash"):
+            ref = fresh.get((c["style"], c["base"], c["force"], c["entry"].partition("@")[0]))
+            r_ = o.get("result")
+            nrep += 1
+            tol = REPAIR_TOL[c["style"]]
+            if tol is not None and ref is not None and r_ is not None and math.isfinite(ref) and math.isfinite(r_):
+                if abs(r_ - ref) > tol * abs(ref):
+                    vs.append(("repair-differs", None, "%s %s base %s, defects {%s}, force=%d, entry %s: object repaired with the valid values gives %r, "
+                               "a fresh valid object %r (rel. diff %.2e > %.0e)" % (c["model"], c["style"], c["base"], ", ".join(c["ids"]), c["force"],
+                                                                                   c["entry"], r_, ref, abs(r_ - ref) / abs(ref), tol)))
+    ctx.note("repaired_objects_compared_with_fresh", nrep)
     for c, o, vs in zip(cases, obs, verdicts):
         ctx.evals(1)
         per_entry[c["entry"]] = per_entry.get(c["entry"], 0) + 1
